@@ -149,7 +149,8 @@ def run(ctx):
                 "schedules, with the scan and with the Lean model; "
                 "non-trivial = distinct (pending-events relation to "
                 "collection size at a lookup, tree built?, counts)")
-    tie = core.BatchTie(ctx, "index", "index", flush_at=25)
+    tie = core.BatchTie(ctx, "index", "index", flush_at=25,
+                         skip_line=ix.sandwich_line)
     for h in range(ctx.scale(80, 2500)):
         one(ctx, h, tie)
         if len(ctx.violations) >= 3:
@@ -158,7 +159,8 @@ def run(ctx):
 
 
 def search(ctx, broken):
-    tie = core.BatchTie(ctx, "index", "index", flush_at=25)
+    tie = core.BatchTie(ctx, "index", "index", flush_at=25,
+                         skip_line=ix.sandwich_line)
     for h in range(600):
         one(ctx, 10**6 + h, tie)
         if ctx.violations:
